@@ -35,10 +35,23 @@ def ev(e, env):
         return e["v"]
     if k == "var":
         if e["n"] in env:
+            if isinstance(env[e["n"]], (bytes, bytearray)):
+                raise Unknown("string used as a number")
             return _wrap(env[e["n"]], e.get("ty"))
         raise Unknown("free variable %s" % e["n"])
     if k == "cast":
         return _wrap(ev(e["e"], env), e.get("to") or e.get("ty"))
+    if k == "idx":
+        b0 = strip(e["b"])
+        if b0 is not None and b0.get("k") == "var" and isinstance(env.get(b0["n"]), (bytes, bytearray)):
+            ix = ev(e["i"], env)
+            buf = env[b0["n"]]
+            if 0 <= ix < len(buf):
+                return buf[ix]
+            if ix == len(buf):
+                return 0
+            raise Unknown("index %d outside the modelled string" % ix)
+        raise Unknown("indexing of something that is not a modelled string")
     if k == "un":
         v = ev(e["e"], env)
         if e["op"] == "-":
@@ -114,7 +127,7 @@ def _leafify(e):
     return out
 
 
-def run_cfg(func, env, start=None, max_steps=64):
+def run_cfg(func, env, start=None, max_steps=64, stop_at=None):
     """follow the CFG of a side-effect-free fragment from block `start` (default: entry) with every branch condition decided by `env`
     (names: variables and canonical member texts).  Stops at the first return (-> ('ret', element)) or at the first condition that
     mentions something outside env or contains a call (-> ('open', block id)).  Assignments of constants to variables in env are
@@ -125,12 +138,24 @@ def run_cfg(func, env, start=None, max_steps=64):
     while steps < max_steps:
         steps += 1
         blk = func.blocks[bid]
-        for el in blk.els:
+        for ei, el in enumerate(blk.els):
+            if stop_at and (bid, ei) in stop_at:
+                return ("stop", (bid, ei))
             if el["k"] == "ret":
                 return ("ret", el)
+            if el["k"] == "decl":
+                for v in el["vars"]:
+                    if v["n"] in env and v.get("init") is not None:
+                        try:
+                            env[v["n"]] = ev(_leafify(v["init"]), env)
+                        except Unknown:
+                            raise Unknown("initialiser of %s not interpretable" % v["n"])
             if el["k"] == "asg":
                 tgt = render(strip(el["e"]["l"]))
                 if tgt in env:
+                    if el["e"]["op"] in ("++", "--"):
+                        env[tgt] = env[tgt] + (1 if el["e"]["op"] == "++" else -1)
+                        continue
                     if el["e"]["op"] == "=":
                         try:
                             env[tgt] = ev(_leafify(el["e"].get("r")), env)
